@@ -4,8 +4,9 @@ confirms the repository's own tests of the touched packages still pass there (ot
 mutant is one the suite already catches), runs ./check <property> against the copy and requires
 exit 1 (kind "break") or exit 0 (kind "refactor": behaviour-preserving, false-alarm side).
 
-  tools/mutants.py [--only REGEX] [--jobs N] [--tier quick] [--no-suite] [--file FILE]
-Writes mutants/RESULTS.md.
+  tools/mutants.py [--only REGEX] [--jobs N] [--tier quick] [--no-suite] [--file FILE] [--append]
+Writes mutants/RESULTS.md (a full run rewrites it; --append adds the rows of a partial run, replacing rows of
+the same mutants).
 """
 import json, os, re, shutil, subprocess, sys, tempfile, time
 from concurrent.futures import ThreadPoolExecutor
@@ -59,7 +60,7 @@ def run_mutant(m, tier, suite):
 
 def main():
     a = sys.argv[1:]
-    only = None; jobs = 4; tier = "quick"; suite = True; mfile = os.path.join(ROOT, "mutants", "mutants.json")
+    only = None; jobs = 4; tier = "quick"; suite = True; mfile = os.path.join(ROOT, "mutants", "mutants.json"); append = False
     i = 0
     while i < len(a):
         if a[i] == "--only": only = a[i+1]; i += 2
@@ -67,6 +68,7 @@ def main():
         elif a[i] == "--tier": tier = a[i+1]; i += 2
         elif a[i] == "--no-suite": suite = False; i += 1
         elif a[i] == "--file": mfile = a[i+1]; i += 2
+        elif a[i] == "--append": append = True; i += 1
         else: raise SystemExit("bad arg " + a[i])
     ms = json.load(open(mfile))
     if only:
@@ -83,6 +85,11 @@ def main():
                    {True: "passes", False: "FAILS (suite already catches it)", None: "n/a"}[r.get("suite_ok")], r.get("rc"), r["status"], r.get("wall")))
     if not only and mfile.endswith("mutants/mutants.json"):
         open(os.path.join(ROOT, "mutants", "RESULTS.md"), "w").write("# Sensitivity results (tools/mutants.py, tier %s)\n\n" % tier + "\n".join(out) + "\n")
+    elif append:
+        rp = os.path.join(ROOT, "mutants", "RESULTS.md")
+        mine = {r["m"]["id"] for r in res}
+        keep = [l for l in open(rp).read().splitlines() if not (l.startswith("| ") and l.split("|")[1].strip() in mine)]
+        open(rp, "w").write("\n".join(keep + out[2:]) + "\n")
     print("%d mutants, %d not as expected" % (len(res), bad))
     sys.exit(1 if bad else 0)
 
